@@ -1,18 +1,27 @@
 (** C18 — State is deterministic, restart-safe and survives genesis export and import.
 
-    PARTIAL.  What is proved here is the export / import half, about the Gallina transcription
-    Genesis/RoundTrip.v of the InitGenesis / ExportGenesis pairs of quarantine, sanction, name,
-    attribute, msgfees, hold and trigger (and their product in app.go's genesis order): for every
-    well-formed module store, initialising an empty store from the exported genesis succeeds and
-    rebuilds exactly that store, so the second export equals the first and the re-initialised
-    state accepts its own export; and an export is a function of the store's content only, not of
-    the order in which the entries were written.  Determinism across runs and restart safety of
+    PARTIAL.  What is proved here is the export / import half, about the Gallina transcriptions
+    Genesis/RoundTrip.v (quarantine, sanction, name, attribute, msgfees, hold, trigger),
+    Genesis/ExchangeGenesis.v, Genesis/MarkerGenesis.v, Genesis/MetadataGenesis.v of the
+    InitGenesis / ExportGenesis pairs of all ten custom modules, and about their product in
+    app.go's genesis order (Genesis/FullProduct.v): for every well-formed module store,
+    initialising an empty store from the exported genesis succeeds and rebuilds exactly that store
+    INCLUDING the secondary indexes the keepers' setters rebuild (exchange order / payment indexes,
+    marker registry, metadata address / specification indexes), so the second export equals the
+    first and the re-initialised state accepts its own export; and an export is a function of the
+    store's content only, not of the order in which the entries were written.  One clause is
+    REFUTED: quarantine records that carry accepted senders (reachable from a genesis with a
+    multi-sender record by one MsgAccept) do not survive the round trip.  Determinism across runs and restart safety of
     the real node cannot be the subject of a theorem about a (deterministic by construction)
     Gallina function: they are VALIDATED by the harness on the real application and labelled so.
     Only theorem statements here; each is closed by [exact] of a lemma of Proofs/RoundTripProofs.v. *)
-From Coq Require Import ZArith NArith List Bool.
+From Coq Require Import ZArith NArith List Bool Sorted.
 Import ListNotations.
-From PV Require Import Genesis.RoundTrip Proofs.RoundTripProofs.
+From PV Require Import Genesis.RoundTrip Genesis.Indexed Genesis.ExchangeGenesis Genesis.MarkerGenesis
+                       Genesis.MetadataGenesis Genesis.FullProduct Genesis.QuarantineAccept
+                       Proofs.RoundTripProofs Proofs.TableLemmas Proofs.ExchangeGenesisProofs
+                       Proofs.MarkerGenesisProofs Proofs.MetadataGenesisProofs Proofs.FullProductProofs
+                       Proofs.QuarantineAcceptProofs Proofs.FullWitness.
 Open Scope Z_scope.
 
 (** Every history of raw store writes and deletes leaves a strictly key-sorted table: the
@@ -75,30 +84,130 @@ Theorem C18_trigger_import_export : forall trig_valid s,
 Proof. exact trig_import_export. Qed.
 Print Assumptions C18_trigger_import_export.
 
-(** The product state, in app.go's InitGenesis order (including the attribute module's
-    accountdata name record step, which must find the record in place and leave it alone). *)
-Theorem C18_import_export : forall x s,
+(** The product of the seven modules of Genesis/RoundTrip.v (kept; the full product is below). *)
+Theorem C18_import_export_seven : forall x s,
   app_wf x s -> app_import x (app_export x s) = Some s.
 Proof. exact app_import_export. Qed.
+Print Assumptions C18_import_export_seven.
+
+(** One InitGenesis loop that keeps a primary table and its secondary-index entries in step
+    (exchange setOrderInStore / createPaymentInStore, metadata scope and specification setters):
+    importing the export of a sorted table into a store that does not hold its records rebuilds
+    the table and adds exactly the index entries derived from its records, provided the setter's
+    guard passes against the index entries written so far. *)
+Theorem C18_indexed_import_fresh : forall (G R : Type) (pk : G -> option key) (mk : G -> option R -> table R -> R)
+    (guard : G -> option R -> index -> bool) (add : G -> option R -> list (key * key))
+    (rem : G -> option R -> list key) (proj : R -> G) (t : table R) (ix : index),
+  tsorted t ->
+  Forall (fun kr => pk (proj (snd kr)) = Some (fst kr) /\
+                    (forall p, mk (proj (snd kr)) None p = snd kr) /\
+                    rem (proj (snd kr)) None = []) t ->
+  (forall ta kr tb, t = ta ++ kr :: tb ->
+     guard (proj (snd kr)) None (set_all (derived_index proj add ta) ix) = true) ->
+  iimport pk mk guard add rem (texport proj t) [] ix = Some (t, set_all (derived_index proj add t) ix).
+Proof. exact (@iimport_fresh). Qed.
+Print Assumptions C18_indexed_import_fresh.
+
+(** Exchange: params, markets with their fee tables / flags / permissions / required attributes,
+    orders (any remaining amounts), commitments, payments, last ids, and the five secondary
+    indexes, provided the hold module holds what the records need (C02). *)
+Theorem C18_exchange_import_export : forall held s,
+  exch_wf held s -> exch_import held (exch_export s) = Some s.
+Proof. exact exch_import_export. Qed.
+Print Assumptions C18_exchange_import_export.
+
+(** ... in particular the indexes InitGenesis rebuilds are the exporting chain's indexes. *)
+Theorem C18_exchange_indexes_rebuilt : forall held s s',
+  exch_wf held s -> exch_import held (exch_export s) = Some s' -> xs_index s' = xs_index s.
+Proof. exact exch_indexes_rebuilt. Qed.
+Print Assumptions C18_exchange_indexes_rebuilt.
+
+(** Marker: a well-formed marker store can be exported (the registry names marker accounts only) *)
+Theorem C18_marker_export_total : forall mv nv s,
+  marker_wf mv nv s -> exists g, marker_export s = Some g.
+Proof. exact marker_export_total. Qed.
+Print Assumptions C18_marker_export_total.
+
+(** ... and is rebuilt (accounts with access lists, registry, deny list, net asset values) from
+    its export when, as app/export.go arranges, the auth genesis carries the marker accounts as
+    bare BaseAccounts with their account numbers ... *)
+Theorem C18_marker_import_export : forall mv nv other next s g,
+  marker_wf mv nv s -> marker_export s = Some g ->
+  (forall k m, In (k, m) (mks_accounts s) -> other (mr_addr m) = Some (mr_accnum m)) ->
+  marker_import mv nv [] other next g = Some s.
+Proof. exact marker_import_export. Qed.
+Print Assumptions C18_marker_import_export.
+
+(** ... and also when the auth genesis lists the MarkerAccounts themselves. *)
+Theorem C18_marker_import_export_kept : forall mv nv other next s g,
+  marker_wf mv nv s -> marker_export s = Some g ->
+  marker_import mv nv (mks_accounts s) other next g = Some s.
+Proof. exact marker_import_export_kept. Qed.
+Print Assumptions C18_marker_import_export_kept.
+
+(** Metadata: scopes (value owners stay where the bank has them), sessions, records, the three
+    kinds of specifications, object store locators, net asset values with their heights, and the
+    five secondary indexes. *)
+Theorem C18_metadata_import_export : forall rec_addr blocked vo_send_ok snav_valid s,
+  md_wf rec_addr blocked snav_valid s ->
+  md_import rec_addr blocked vo_send_ok snav_valid (md_vo s) (md_export s) = Some s.
+Proof. exact md_import_export. Qed.
+Print Assumptions C18_metadata_import_export.
+
+Theorem C18_metadata_indexes_rebuilt : forall rec_addr blocked vo_send_ok snav_valid s s',
+  md_wf rec_addr blocked snav_valid s ->
+  md_import rec_addr blocked vo_send_ok snav_valid (md_vo s) (md_export s) = Some s' ->
+  md_index s' = md_index s.
+Proof. exact md_index_rebuilt. Qed.
+Print Assumptions C18_metadata_indexes_rebuilt.
+
+(** ExportGenesis of net asset values (marker and metadata): per owner, in the owners' order,
+    what is stored under the owner's address.  When every entry has its owner this lists every
+    entry exactly once and in store order. *)
+Theorem C18_regroup_flat : forall (O E : Type) (oaddr : O -> key) (eaddr : E -> key) (ord : key -> key)
+    (owners : list O) (entries : list E),
+  StronglySorted (fun o1 o2 => kcmp (ord (oaddr o1)) (ord (oaddr o2)) = Lt) owners ->
+  StronglySorted (fun e1 e2 => kcmp (ord (eaddr e1)) (ord (eaddr e2)) <> Gt) entries ->
+  Forall (fun e => exists o, In o owners /\ oaddr o = eaddr e) entries ->
+  flat_map snd (regroup oaddr eaddr owners entries) = entries.
+Proof. exact (@regroup_flat). Qed.
+Print Assumptions C18_regroup_flat.
+
+(** The product of ALL TEN custom modules, in app.go's InitGenesis order (marker after auth and
+    bank; quarantine, sanction, name, attribute + accountdata record, metadata, msgfees, hold,
+    exchange with its hold check against the imported hold state; trigger). *)
+Theorem C18_import_export : forall x s,
+  full_wf x s -> exists g, full_export x s = Some g /\ full_import x g = Some s.
+Proof. exact full_import_export. Qed.
 Print Assumptions C18_import_export.
 
 (** Export of the re-imported state equals the first export. *)
-Theorem C18_export_import_export : forall x s s',
-  app_wf x s -> app_import x (app_export x s) = Some s' -> app_export x s' = app_export x s.
-Proof. exact app_export_import_export. Qed.
+Theorem C18_export_import_export : forall x s g s',
+  full_wf x s -> full_export x s = Some g -> full_import x g = Some s' -> full_export x s' = Some g.
+Proof. exact full_export_import_export. Qed.
 Print Assumptions C18_export_import_export.
 
 (** The re-initialised chain accepts its own export (and lands on the same state again). *)
-Theorem C18_reimported_accepts_own_export : forall x s s',
-  app_wf x s -> app_import x (app_export x s) = Some s' ->
-  app_import x (app_export x s') = Some s'.
-Proof. exact app_reimported_accepts_own_export. Qed.
+Theorem C18_reimported_accepts_own_export : forall x s g s',
+  full_wf x s -> full_export x s = Some g -> full_import x g = Some s' ->
+  exists g', full_export x s' = Some g' /\ full_import x g' = Some s'.
+Proof. exact full_reimported_accepts_own_export. Qed.
 Print Assumptions C18_reimported_accepts_own_export.
 
+(** The secondary indexes rebuilt by the import are the exporting chain's. *)
+Theorem C18_indexes_rebuilt : forall x s g s',
+  full_wf x s -> full_export x s = Some g -> full_import x g = Some s' ->
+  xs_index (f_exch s') = xs_index (f_exch s) /\
+  mks_index (f_marker s') = mks_index (f_marker s) /\
+  md_index (f_md s') = md_index (f_md s).
+Proof. exact full_indexes_rebuilt. Qed.
+Print Assumptions C18_indexes_rebuilt.
+
 (** The premise "no accepted senders" of the quarantine round trip is needed: a record with a
-    sender that already accepted (only the keeper API with several senders builds one; the send
-    restriction always records a single sender) is exported without its accepted list and comes
-    back under another key.  The exported genesis of both stores is nevertheless identical. *)
+    sender that already accepted is exported without its accepted list and comes back under
+    another key.  The exported genesis of both stores is nevertheless identical.  (The bank send
+    restriction always records a single sender, but a genesis may hold records with several: see
+    the next theorem.) *)
 Theorem C18_quarantine_accepted_senders_refuted :
   exists rec_id holder s s',
     tsorted (qs_recs s) /\ quar_import rec_id holder (quar_export s) = Some s' /\
@@ -106,9 +215,38 @@ Theorem C18_quarantine_accepted_senders_refuted :
 Proof. exact quar_accepted_refuted. Qed.
 Print Assumptions C18_quarantine_accepted_senders_refuted.
 
-(** Non-vacuity: a concrete product state with entries in every module is well-formed and is
-    rebuilt from its export. *)
+(** That state IS reachable: a genesis with one record from two senders (valid, and accepted by
+    InitGenesis), one MsgAccept naming one of them.  The round trip then loses the acceptance and
+    re-keys the record although both exports are identical, and the same later messages (Decline
+    naming the accepted sender, Accept naming the other) leave the funds quarantined on the
+    exporting chain and release them on the imported chain.  Reproduced on the real application
+    by the harness (findings/C18.md). *)
+Theorem C18_quarantine_accepted_senders_reachable_refuted :
+  exists hash holder g s0 s1 s',
+    quar_import (sorted_rec_id hash) holder g = Some s0 /\
+    s1 = quar_accept hash w_T [w_A] s0 /\
+    (exists r, In r (map snd (qs_recs s1)) /\ qr_accepted r <> [] /\ qr_unaccepted r <> []) /\
+    quar_import (sorted_rec_id hash) holder (quar_export s1) = Some s' /\
+    s' <> s1 /\ quar_export s' = quar_export s1 /\
+    qs_recs (quar_accept hash w_T [w_B] (quar_decline hash w_T [w_A] s1)) <> [] /\
+    qs_recs (quar_accept hash w_T [w_B] (quar_decline hash w_T [w_A] s')) = [].
+Proof. exact quar_reachable_divergence. Qed.
+Print Assumptions C18_quarantine_accepted_senders_reachable_refuted.
+
+(** Non-vacuity: a concrete product state with entries in every table of all ten modules
+    (orders with and without external id, a payment with a target, a marker with deny entry and
+    net asset value, a scope with owner, data access, specification, value owner and net asset
+    value, ...) is well-formed, exports, and is rebuilt from its export, indexes included. *)
 Example C18_witness :
+  full_wf fw_ext fw_state /\
+  (exists g, full_export fw_ext fw_state = Some g /\ full_import fw_ext g = Some fw_state /\
+             xg_orders (fg_exch g) <> [] /\ xg_payments (fg_exch g) <> [] /\ mkg_markers (fg_marker g) <> [] /\
+             mg_scopes (fg_md g) <> [] /\ mg_navs (fg_md g) <> []) /\
+  xs_index (f_exch fw_state) <> [] /\ md_index (f_md fw_state) <> [] /\ mks_index (f_marker fw_state) <> [].
+Proof. exact fw_ok. Qed.
+
+(** ... and the seven-module witness of Genesis/RoundTrip.v. *)
+Example C18_witness_seven :
   app_wf witness_ext witness_state /\
   app_import witness_ext (app_export witness_ext witness_state) = Some witness_state /\
   g_hold (app_export witness_ext witness_state) <> [] /\
